@@ -28,6 +28,13 @@ class ToolError(Exception):
     pass
 
 
+class ConfigUnavailable(ToolError):
+    """The crate under test does not BUILD in a non-default feature configuration (e.g. a change that uses
+    `format!` breaks `--no-default-features`).  That is a build break, not a verdict about any of the listed
+    properties: the runs of that configuration are skipped with a note and the default configuration goes on,
+    so that a tool error does not hide what the other runs would report."""
+
+
 def log(*a):
     print("[check]", *a, file=sys.stderr, flush=True)
 
@@ -107,6 +114,8 @@ def build_harness(config="std"):
         open(os.path.join(cov, "binaries.txt"), "a").write(os.path.join(tdir, "debug", "hm-harness") + "\n")
     rc, out, dt = sh(cmd, cwd=hdir, env=env, timeout=900, check=False)
     if rc != 0:
+        if config == "nostd" and "std" in _built and ("helgoboss-midi" in out or "helgoboss_midi" in out):
+            raise ConfigUnavailable("the crate under test does not build in configuration `%s`:\n%s" % (config, out[-1500:]))
         raise ToolError("harness build failed (%s):\n%s" % (config, out[-4000:]))
     b = os.path.join(tdir, "debug", "hm-harness")
     _built[config] = b
